@@ -52,7 +52,8 @@ REQUIRED_BUCKETS = [
     'rect:mixed:formula', 'rect:one-error:formula', 'rect:two-errors:formula', 'rect:nothing-numeric:formula',
     'rect:mixed:wb', 'rect:one-error:wb', 'rect:nothing-numeric:wb',
     'sp:equal:lib', 'sp:equal:formula', 'sp:equal:wb', 'sp:mismatch:lib', 'sp:mismatch:formula', 'sp:error:lib',
-    'sp:scalars:lib', 'sp:scalars:formula', 'sub:named', 'sub:other', 'scal:lib', 'scal:formula']
+    'sp:scalars:lib', 'sp:scalars:formula', 'sub:named', 'sub:other', 'scal:lib', 'scal:formula',
+    'rect:any:lib:np-f', 'rect:any:lib:np-all', 'chain:np-int', 'chain:np-float', 'chain:plain']
 EXHAUSTIVE = False
 
 FNS = ('sum', 'average', 'min', 'max', 'count')
@@ -151,6 +152,70 @@ def rect_case(rng, via, r, c, cells, all_perms=False, n_perms=3, fl=False):
     return case
 
 
+CHAIN_KINDS = ('sp2', 'sp2', 'sp1', 'mul', 'add', 'div', 'sum', 'max', 'min', 'cnt', 'gt', 'cat', 'err')
+
+
+def _n0(t):
+    return _frac(t) if is_num(t) else Fraction(0)
+
+
+def _integral(t):
+    return is_num(t) and _frac(t).denominator == 1
+
+
+def chain_value(kind, i, j, X, Y):
+    """(expected value token, is the implementation's value a numpy integer) of an inner formula, from the statement:
+    SUMPRODUCT = sum of pointwise products with non-numbers 0, SUM/MAX/MIN/COUNT over the numeric cells, arithmetic"""
+    nums = [_frac(t) for t in X + Y if is_num(t)]
+    if kind == 'sp2':
+        return core.enc(sum((_n0(a) * _n0(b) for a, b in zip(X, Y)), Fraction(0))), \
+            all(_integral(t) for t in X + Y if is_num(t))
+    if kind == 'sp1':
+        return core.enc(sum((_n0(a) for a in X), Fraction(0))), all(_integral(t) for t in X if is_num(t))
+    v = {'mul': lambda: _frac(X[i]) * 2, 'add': lambda: _frac(X[i]) + _frac(Y[j]), 'div': lambda: _frac(X[i]) / 4,
+         'sum': lambda: sum(nums, Fraction(0)), 'max': lambda: max(nums), 'min': lambda: min(nums),
+         'cnt': lambda: Fraction(len(nums))}.get(kind)
+    if v:
+        return core.enc(v()), False
+    if kind == 'gt':
+        return ('b:1' if _frac(X[i]) > 0 else 'b:0'), False
+    if kind == 'cat':
+        return s_(str(int(_frac(X[i])))), False
+    return 'e:div0', False
+
+
+def chain_case(rng, i):
+    n = rng.randint(2, 4)
+    ints = i % 3 == 0                    # all-integer data: SUMPRODUCT then yields a numpy.int64
+    num = (lambda: n_(rng.randint(-40, 40))) if ints else (lambda: rnd_num(rng))
+    X = [num() for _ in range(n)]
+    Y = [num() for _ in range(n)]
+    X[0] = n_(rng.randint(1, 30)) if i % 2 else n_(-rng.randint(1, 30))      # integral: the operand of 'cat'
+    for t in (X, Y):
+        if rng.random() < 0.3:
+            t[rng.randrange(1, n)] = rnd_ign(rng, True)
+    r, c = rng.randint(1, 4), rng.randint(1, 4)
+    src, cells, npint = [], [], []
+    allow_err = i % 4 == 0
+    for k in range(r * c):
+        x = rng.random()
+        if x < 0.45 or (k == 0):
+            kind = rng.choice(CHAIN_KINDS if allow_err else CHAIN_KINDS[:-1])
+            ii = rng.choice([a for a in range(n) if is_num(X[a])]) if kind != 'cat' else 0
+            jj = rng.choice([a for a in range(n) if is_num(Y[a])])
+            v, npi = chain_value(kind, ii, jj, X, Y)
+            src.append(['f', kind, ii, jj])
+            cells.append(v)
+            if npi:
+                npint.append(k)
+        else:
+            t = rnd_num(rng) if x < 0.75 else rnd_ign(rng, True)
+            src.append(['lit', t])
+            cells.append(t)
+    return {'k': 'chain', 'via': 'wb', 'n': n, 'X': X, 'Y': Y, 'r': r, 'c': c, 'src': src, 'cells': cells,
+            'npint': npint}
+
+
 def cases(tier, rng):
     thorough = tier == 'thorough'
     # 1. small scope, exhaustive: all fills of <= 3 cells over POOL8, all permutations
@@ -177,6 +242,16 @@ def cases(tier, rng):
     for i in range(0 if thorough else 36):
         r, c = rng.randint(1, 5), rng.randint(1, 5)
         yield rect_case(rng, 'wb', r, c, fill(rng, r * c, styles[i % 6], True), all_perms=r * c <= 3, n_perms=2)
+    # 2b. the same through lib_call with numpy-typed numbers (what function results leave in cells)
+    for i in range(600 if thorough else 60):
+        r, c = rng.randint(1, 5), rng.randint(1, 5)
+        case = rect_case(rng, 'lib', r, c, fill(rng, r * c, styles[i % 6]), all_perms=r * c <= 3, n_perms=2)
+        case['np'] = 'f' if i % 3 else 'all'
+        yield case
+    # 2c. workbooks whose aggregated range holds FORMULA cells (SUMPRODUCT -> numpy.float64 / numpy.int64, division,
+    #     products, inner aggregates, a logical, a numeric text, an error) next to literals
+    for i in range(1500 if thorough else 150):
+        yield chain_case(rng, i)
     # 3. SUMPRODUCT
     for via, k in (('lib', 1500 if thorough else 60), ('formula', 500 if thorough else 25), ('wb', 200 if thorough else 12)):
         for i in range(k):
@@ -271,21 +346,49 @@ def queries(c):
         return [('sub', ('subtotal', c['n']), [['a', c['r'], c['c'], c['cells']]])]
     if k == 'scal':
         return [('scal', c['fn'], [['s', t] for t in c['args']])]
+    if k == 'chain':
+        return _chain_queries(c, c['cells'])
     raise ValueError(k)
 
 
-def _py(tok, fl=False):
+def _first_formula(c):
+    return next(i for i, s in enumerate(c['src']) if s[0] == 'f')
+
+
+def _chain_queries(c, cells):
+    """cells = the values the range cells evaluate to (c['cells'] = what the statement expects of the inner formulas)"""
+    w = [['a', c['r'], c['c'], cells]]
+    qs = [(f'c{i}', 'echo', [['s', t]]) for i, t in enumerate(c['cells'])]
+    qs += [(f'{f}:W', f, w) for f in FNS]
+    for f in FNS:
+        qs.append((f'sub{SUBNUM[f]}', ('subtotal', SUBNUM[f]), w))
+        qs.append((f'sub{SUBNUM[f] + 100}', ('subtotal', SUBNUM[f] + 100), w))
+    if not any(is_err(t) for t in c['cells']):
+        qs.append(('sp:WW', 'sumproduct', w + w))
+    k = _first_formula(c)
+    qs.append(('count:F', 'count', [['a', 1, 1, [cells[k]]]]))
+    qs.append(('sum:F', 'sum', [['a', 1, 1, [cells[k]]]]))
+    return qs
+
+
+def _py(tok, fl=False, npm=None):
+    """protocol token -> the Python value handed to pycel.  npm: None = int/float; 'f' = every number a
+    numpy.float64; 'all' = integral numbers numpy.int64, the others numpy.float64 (the types function results such as
+    SUMPRODUCT's leave in cells)"""
     v = core.dec(tok)
     if isinstance(v, Fraction):
+        if npm:
+            import numpy as np
+            return np.int64(int(v)) if v.denominator == 1 and npm == 'all' else np.float64(float(v))
         return int(v) if v.denominator == 1 and not fl else float(v)
     return v
 
 
-def _pyarg(a, fl):
+def _pyarg(a, fl, npm=None):
     if a[0] == 's':
-        return _py(a[1], fl)
+        return _py(a[1], fl, npm)
     _, r, c, toks = a
-    return tuple(tuple(_py(toks[i * c + j], fl) for j in range(c)) for i in range(r))
+    return tuple(tuple(_py(toks[i * c + j], fl, npm) for j in range(c)) for i in range(r))
 
 
 def _col(i):
@@ -344,7 +447,50 @@ def _tok(f):
         return core.canon_exc(exc)
 
 
+CH_X, CH_Y, CH_W = 1, 2, 4          # chain workbooks: data in columns A and B, the aggregated range from column D
+
+
+def _chain_formula(src, n):
+    kind, i, j = src[1], src[2], src[3]
+    xs, ys, both = f'A1:A{n}', f'B1:B{n}', f'A1:B{n}'
+    return {'sp2': f'=SUMPRODUCT({xs},{ys})', 'sp1': f'=SUMPRODUCT({xs})', 'mul': f'=A{i + 1}*2',
+            'add': f'=A{i + 1}+B{j + 1}', 'div': f'=A{i + 1}/4', 'sum': f'=SUM({both})', 'max': f'=MAX({both})',
+            'min': f'=MIN({both})', 'cnt': f'=COUNT({both})', 'gt': f'=A{i + 1}>0', 'cat': f'=A{i + 1}&""',
+            'err': f'=A{i + 1}/0'}[kind]
+
+
+def _impl_chain(c):
+    n, r, cc = c['n'], c['r'], c['c']
+    book = {}
+    for k in range(n):
+        for col, toks in (('A', c['X']), ('B', c['Y'])):
+            v = _py(toks[k])
+            if v is not None:
+                book[f'Sheet1!{col}{k + 1}'] = v
+    addr = [f'{_col(CH_W + k % cc)}{k // cc + 1}' for k in range(r * cc)]
+    for k, src in enumerate(c['src']):
+        v = _py(src[1]) if src[0] == 'lit' else _chain_formula(src, n)
+        if v is not None:
+            book[f'Sheet1!{addr[k]}'] = v
+    whole = f'{addr[0]}:{addr[-1]}'
+    targets = []
+    for lab, op, args in queries(c):
+        if op == 'echo':
+            targets.append(f'Sheet1!{addr[int(lab[1:])]}')
+            continue
+        ref = f'{addr[_first_formula(c)]}:{addr[_first_formula(c)]}' if lab in ('count:F', 'sum:F') else whole
+        refs = ','.join([ref] * len(args))
+        f = f'=SUBTOTAL({op[1]},{refs})' if isinstance(op, tuple) else \
+            f'=SUMPRODUCT({refs})' if op == 'sumproduct' else f'={XLNAME[op]}({refs})'
+        book[f'Sheet1!AB{len(targets) + 1}'] = f
+        targets.append(f'Sheet1!AB{len(targets) + 1}')
+    comp = pyc.compiler_from(book)
+    return '|'.join(_tok(lambda: comp.evaluate(t)) for t in targets)
+
+
 def impl(c):
+    if c['k'] == 'chain':
+        return _impl_chain(c)
     qs = queries(c)
     fl = bool(c.get('fl'))
     via = c['via']
@@ -352,7 +498,7 @@ def impl(c):
         outs = []
         for _, op, args in qs:
             name = 'sumproduct' if op == 'sumproduct' else PYNAME[op]
-            pargs = [_pyarg(a, fl) for a in args]
+            pargs = [_pyarg(a, fl, c.get('np')) for a in args]
             outs.append(_tok(lambda: pyc.lib_call(name, *pargs)))
         return '|'.join(outs)
     cells, formulas = _layout(qs, fl)
@@ -376,7 +522,7 @@ def _argtoks(a):
 def model_lines(c):
     lines = []
     for _, op, args in queries(c):
-        head = f'c14 subtotal {op[1]}' if isinstance(op, tuple) else f'c14 {op}'
+        head = f'c14 subtotal {op[1]}' if isinstance(op, tuple) else f'c14 {op}'     # op 'echo': the token itself
         lines.append(' '.join([head] + [_argtoks(a) for a in args]))
     return lines
 
@@ -415,7 +561,7 @@ def sp_class(c):
 
 def governed(c):
     k = c['k']
-    if k == 'rect':
+    if k in ('rect', 'chain'):
         return True
     if k == 'sp':
         return sp_class(c) == 'equal'
@@ -426,6 +572,8 @@ def governed(c):
 
 def rect_class(c):
     cells = c['cells']
+    if c.get('np'):
+        return 'any'
     errs = {t for t in cells if is_err(t)}
     if len(errs) >= 2:
         return 'two-errors'
@@ -441,7 +589,10 @@ def rect_class(c):
 def bucket(c):
     k = c['k']
     if k == 'rect':
-        return f'rect:{rect_class(c)}:{c["via"]}'
+        return f'rect:{rect_class(c)}:{c["via"]}' + (f':np-{c["np"]}' if c.get('np') else '')
+    if k == 'chain':
+        kinds = {s[1] for s in c['src'] if s[0] == 'f'}
+        return 'chain:' + ('np-int' if c['npint'] else 'np-float' if kinds & {'sp1', 'sp2'} else 'plain')
     if k == 'sp':
         return f'sp:{sp_class(c)}:{c["via"]}'
     if k == 'sub':
@@ -461,6 +612,8 @@ def nontrivial(c):
         return sp_class(c) == 'equal' and any(is_num(t) for a in c['args'] for t in a[3])
     if k == 'sub':
         return governed(c)
+    if k == 'chain':
+        return len(c['cells']) >= 2
     return False
 
 
@@ -471,7 +624,39 @@ def finding_key(c, impl_out, model_out):
             and all((a[1], a[2]) == (1, 1) for a in c['args']) and any(a[3][0] == 'z' for a in c['args']) \
             and impl_out is not None and impl_out.split('|')[0] == 'e:value':
         return 'sumproduct.single-cell.blank'
+    # a cell holding a numpy INTEGER (SUMPRODUCT over all-integer cells returns numpy.int64, which is not an `int`):
+    # every aggregate silently ignores that numeric cell.  Matches only when the whole output is exactly what the
+    # statement prescribes with those cells dropped, so any other deviation on such a case is still reported.
+    if impl_out is not None and (c['k'] == 'chain' and c['npint'] or c['k'] == 'rect' and c.get('np') == 'all'):
+        if c['k'] == 'chain':
+            dropped = _chain_queries(c, ['z' if i in c['npint'] else t for i, t in enumerate(c['cells'])])
+        else:
+            dropped = [(lab, op, [[a[0], a[1], a[2], ['z' if _integral(t) else t for t in a[3]]] for a in args])
+                       for lab, op, args in queries(c)]
+        toks = impl_out.split('|')
+        full = [_expect(op, args) for _, op, args in queries(c)]
+        if len(toks) == len(dropped) and full != [_expect(op, args) for _, op, args in dropped] and \
+                all(_close(t, _expect(op, args)) for t, (_, op, args) in zip(toks, dropped)):
+            return 'numpy-int.cell.ignored'
     return None
+
+
+def _expect(op, args):
+    """what the statement prescribes for one evaluation (exact)"""
+    if op == 'echo':
+        return args[0][1]
+    cells = [t for a in args for t in (a[3] if a[0] == 'a' else [a[1]])]
+    if isinstance(op, tuple):
+        return spec(next(f for f in FNS if SUBNUM[f] in (op[1], op[1] - 100)), cells)
+    if op == 'sumproduct':
+        total = Fraction(0)
+        for i in range(len(args[0][3])):
+            p = Fraction(1)
+            for a in args:
+                p *= _n0(a[3][i])
+            total += p
+        return core.enc(total)
+    return spec(op, cells)
 
 
 # ---------------------------------------------------------------------------------------------------------------
@@ -587,10 +772,48 @@ def _oracle_sp(c, out):
         yield f'SUMPRODUCT changes when non-numbers are replaced by 0: {core.show(w)} vs {core.show(out["sp:fill"])}'
 
 
+def _oracle_chain(c, out):
+    """over implementation outputs only: the range cells as the implementation evaluates them vs its aggregates"""
+    ev = [out[f'c{i}'] for i in range(len(c['cells']))]
+    bad = [t for t in list(out.values()) if t.startswith('!')]
+    if bad:
+        yield f'an evaluation raised / returned a non-Excel value: {bad[0]}'
+        return
+    nnum = sum(1 for t in ev if is_num(t))
+    for f in FNS:
+        exp = spec(f, ev)
+        if not _close(out[f'{f}:W'], exp):
+            yield (f'{XLNAME[f]} over cells evaluating to {[core.show(t) for t in ev]} = {core.show(out[f"{f}:W"])}, '
+                   f'the statement prescribes {core.show(exp)}')
+        for n in (SUBNUM[f], SUBNUM[f] + 100):
+            if out[f'sub{n}'] != out[f'{f}:W']:
+                yield f'SUBTOTAL({n},…) = {core.show(out[f"sub{n}"])} but {XLNAME[f]} = {core.show(out[f"{f}:W"])}'
+    s, cnt, avg = out['sum:W'], out['count:W'], out['average:W']
+    if not (is_num(cnt) and _frac(cnt) == nnum):
+        yield f'COUNT = {core.show(cnt)} but {nnum} cells of the range evaluate to numbers'
+    if is_num(s) and is_num(cnt):
+        if _frac(cnt) == 0:
+            if avg != 'e:div0':
+                yield f'AVERAGE = {core.show(avg)} although COUNT = 0'
+        elif not _close(avg, core.enc(_frac(s) / _frac(cnt))):
+            yield f'AVERAGE {core.show(avg)} != SUM/COUNT = {core.show(s)}/{core.show(cnt)}'
+    elif is_err(s) and avg != s:
+        yield f'AVERAGE {core.show(avg)} differs from the error SUM returns {core.show(s)}'
+    k = _first_formula(c)
+    if out['count:F'] != n_(1 if is_num(ev[k]) else 0):
+        yield f'COUNT of the single formula cell evaluating to {core.show(ev[k])} is {core.show(out["count:F"])}'
+    if is_num(ev[k]) and out['sum:F'] != ev[k]:
+        yield f'SUM of the single formula cell evaluating to {core.show(ev[k])} is {core.show(out["sum:F"])}'
+    if 'sp:WW' in out:
+        exp = core.enc(sum((_n0(t) ** 2 for t in ev), Fraction(0)))
+        if not _close(out['sp:WW'], exp):      # squares of products may exceed 53 bits: compared as floats
+            yield f'SUMPRODUCT(W,W) = {core.show(out["sp:WW"])}, sum of squares of the numeric cells is {core.show(exp)}'
+
+
 def oracles(results):
     for r in results:
         c = r.case
-        if c['k'] not in ('rect', 'sp', 'sub'):
+        if c['k'] not in ('rect', 'sp', 'sub', 'chain'):
             continue
         qs = queries(c)
         toks = (r.impl or '').split('|')
@@ -605,6 +828,10 @@ def oracles(results):
                 break
         elif c['k'] == 'sp':
             for text in _oracle_sp(c, out):
+                yield c, text
+                break
+        elif c['k'] == 'chain':
+            for text in _oracle_chain(c, out):
                 yield c, text
                 break
         elif governed(c):
